@@ -2,6 +2,8 @@
 
 from __future__ import annotations
 
+import functools
+
 import itertools
 import json
 import os
@@ -691,9 +693,86 @@ def check_psbt(case):
     return Outcome(n >= 3 and wrapped, tuple(tags))
 
 
+# ---------------------------------------------------------------- deep nests, judged with the library's own == and hash
+NEST_SHAPES = ["and_b-left", "and_b-right", "or_d-right", "and_v-right", "andor-mid", "wrappers", "thresh-first"]
+
+
+@st.composite
+def deep_case(draw):
+    return {"shape": draw(st.sampled_from(NEST_SHAPES)), "depth": draw(st.one_of(st.sampled_from([1, 50, 150, 300, 400, 600, 900]), st.integers(1, 1000))), "seed": draw(st.integers(0, 2**20)), "other": draw(st.integers(0, 3))}
+
+
+@functools.lru_cache(maxsize=8192)
+def _nest_key(i: int) -> str:
+    return format(fastec.mul(i + 1, fastec.G)[0], "064x")
+
+
+def _deep_text(shape, depth, seed, tweak):
+    """A tapscript expression nested `depth` deep (x-only keys, all distinct); `tweak` changes the innermost key."""
+    key = _nest_key
+    inner = f"pk({key(10**6 + 10 * (seed % 50) + tweak)})"
+    s = inner
+    for i in range(1, depth + 1):
+        k = key(i)
+        if shape == "and_b-left":
+            s = f"and_b({s},s:pk({k}))"
+        elif shape == "and_b-right":
+            s = f"and_b(pk({k}),a:{s})"
+        elif shape == "or_d-right":
+            s = f"or_d(pk({k}),{s})"
+        elif shape == "and_v-right":
+            s = f"and_v(v:pk({k}),{s})"
+        elif shape == "andor-mid":
+            s = f"andor(pk({k}),{s},pk({key(i + 5000)}))"
+        elif shape == "thresh-first":
+            s = f"thresh(1,{s},s:pk({k}))"
+        else:
+            s = ("n:" if i % 2 else "j:") + ("c:pk_k(" + k + ")" if i == 1 else s) if False else s
+    if shape == "wrappers":
+        # a wrapper chain on a B-typed leaf: j: needs Bn, n: gives B again
+        s = "".join("jn"[i % 2] for i in range(min(depth, 600)))
+        s = s + ":" + inner if s else inner
+    return s
+
+
+def check_deep(case):
+    from btclib.descriptors import miniscript as ms
+
+    shape, depth = case["shape"], case["depth"]
+    text = _deep_text(shape, depth, case["seed"], 0)
+    try:
+        a = ms.parse(text, "tapscript")
+    except LIBEXC as e:
+        return Outcome(False, (f"{shape}:refused", str(e)[:30]))
+    b = ms.parse(text, "tapscript")
+    # the property's "re-parses to the same expression" and "reads back as an expression that compiles to the same script", asked of the library's own equality
+    if not (a == b) or a != b:
+        raise Violation("deep:two-parses-of-one-text-differ", f"{shape} depth {depth}")
+    if hash(a) != hash(b):
+        raise Violation("deep:equal-expressions-hash-differently", f"{shape} depth {depth}")
+    back = ms.parse(str(a), "tapscript")
+    if back != a:
+        raise Violation("deep:text-does-not-re-parse-to-the-same-expression", f"{shape} depth {depth}")
+    script = a.script() if callable(getattr(a, "script")) else a.script
+    read = ms.from_script(script, "tapscript")
+    script2 = read.script() if callable(getattr(read, "script")) else read.script
+    if script2 != script:
+        raise Violation("deep:read-back-compiles-to-another-script", f"{shape} depth {depth}")
+    if len(script) != a.script_size:
+        raise Violation("deep:script-size", f"{len(script)} vs {a.script_size}")
+    other = ms.parse(_deep_text(shape, depth, case["seed"], 1 + case["other"]), "tapscript")
+    if other == a or not (other != a):
+        raise Violation("deep:different-expressions-compare-equal", f"{shape} depth {depth}: the innermost key differs")
+    if len({a, b, back, other}) != 2:
+        raise Violation("deep:set-of-expressions", f"{shape} depth {depth}")
+    return Outcome(depth >= 100, (shape, f"depth={'<100' if depth < 100 else ('<300' if depth < 300 else ('<600' if depth < 600 else '600+'))}"))
+
+
+
 SUBCHECKS = [
     SubCheck("catalog", lambda c: None, "every fragment (and sugared form) over every tuple of a pool of 27 typed arguments, thresh with 1..3 arguments at k=1 and k=n, both contexts: parse accepts exactly what the typing table allows and every static identity holds on what it accepts; non-trivial: accepted", units=catalog_units, run_unit=catalog_run_unit, exhaustive=True),
     SubCheck("static", check_static, "generated expressions (families tree / chain / wide / mutant): acceptance, per-node type, script, size, read-back, text, bounds, sanity verdicts against the model; non-trivial: >=3 fragments including a wrapper", G.static_case, quick=6000, thorough=80000, max_buckets=8),
     SubCheck("satisfaction", check_spend, "a real spend per case with generated availability; witness judged by the engine and the Core model with limits lowered to the predicted bounds; refusal judged by the semantic model; non-trivial: >=3 fragments including a wrapper", spend_strategy, quick=2500, thorough=30000, max_buckets=8),
+    SubCheck("deep_nests", check_deep, "tapscript expressions nested 1..1000 deep in 7 shapes (left/right and_b, or_d, and_v, andor, wrapper chains, thresh): two parses are == and hash alike, str() re-parses to an == expression, from_script(script) compiles to the same script, an expression differing in its innermost key is != (the library's own ==, != and hash are the judges); non-trivial: depth >= 100", deep_case, quick=300, thorough=3000),
     SubCheck("psbt_side", check_psbt, "wsh miniscript input of a PSBT: miniscript_solver against satisfy and the Core model, miniscript_sizer and satisfaction_sizer against the actual witness", lambda: spend_strategy(ctx=M.P2WSH), quick=800, thorough=10000, max_buckets=6),
 ]
